@@ -27,6 +27,7 @@ pub mod c05;
 pub mod c06;
 pub mod c07;
 pub mod c08;
+pub mod c13;
 pub mod cfg;
 pub mod fault;
 pub mod gen;
@@ -38,7 +39,7 @@ pub mod world;
 use scenario::MarketHistory;
 use simcore::{CheckSpec, Part};
 
-pub const PROPERTIES: &[&str] = &["C02", "C03", "C04", "C05", "C06", "C07", "C08"];
+pub const PROPERTIES: &[&str] = &["C02", "C03", "C04", "C05", "C06", "C07", "C08", "C13"];
 
 fn common_assumptions() -> Vec<String> {
     vec![
@@ -87,6 +88,10 @@ pub fn registry(property: &str) -> Option<CheckSpec> {
         "C08" => Some(spec("C08", "exploration", 400_000, 8_000_000, vec![
             "The vault is the harness' own ledger of tokens entering and leaving through the report fields the store transfers on (outputs, secondary outputs, claimable funding, claimable collateral for user and holding, fee claims).".into(),
             "Funding collected is taken from the reports, or from the on_insufficient_funding_fee_payment callback when it fired.".into(),
+        ])),
+        "C13" => Some(spec("C13", "exploration", 400_000, 8_000_000, vec![
+            "The factor at which a position last settled is recorded by the harness from the market state at the end of each successful increase / decrease, not read from the position.".into(),
+            "total_pending_borrowing_fees is evaluated by the harness after every step (also after clock advances and price changes), both borrowing models (exponent and kink).".into(),
         ])),
         _ => None,
     }
